@@ -59,6 +59,12 @@ def evaluate(case):
     ev = Eval()
     spec, table = case["spec"], case["table"]
     ops = case.get("parser_ops", [])
+    if case.get("entry") == "column":
+        # a standalone Column validating the frame: that column, required, nothing else of the schema
+        col = dict(spec["columns"][case["entry_col"]], required=True)
+        if spec.get("coerce"):
+            col["coerce"] = True
+        spec = {"kind": "column", "columns": [col], "index": None}
     schema = sp.pandas_schema(spec)
     data = sp.pandas_series(table) if spec.get("kind") == "series" else sp.pandas_frame(table)
     ev.labels.append("kind=" + spec.get("kind", "dataframe"))
@@ -111,7 +117,7 @@ def evaluate(case):
     # (1b) reference model on the object read back
     try:
         t2 = sp.table_from_pandas(res)
-        ref = refmodel.ref_validate(stripped, t2)
+        ref = refmodel.ref_validate(dict(stripped, kind="dataframe") if stripped.get("kind") == "column" else stripped, t2)
         if not ref.accept:
             comps = sorted({"Index" if "<index>" in repr(e.where) else "Column" for e in ref.errors})
             null_dup = any(e.reason in ("SERIES_CONTAINS_DUPLICATES", "DUPLICATES") for e in ref.errors) and \
@@ -239,8 +245,21 @@ def _kf_add_missing_regex_order(family, case, disc):
                                                 "revalidation-of-result-rejected:COLUMN_NOT_ORDERED")
 
 
+@st.composite
+def strat_pandas(draw):
+    case = draw(gen.parser_case())
+    spec = case["spec"]
+    if spec.get("kind", "dataframe") == "dataframe" and not spec.get("drop_invalid_rows") and draw(st.integers(0, 5)) == 0:
+        names = [t["name"] for t in case["table"]["columns"]]
+        cols = [i for i, c in enumerate(spec["columns"]) if not c.get("regex") and c["name"] in names and names.count(c["name"]) == 1]
+        hot = [i for i in cols if spec["columns"][i]["name"] in case.get("touched", [])]
+        if cols:
+            case = dict(case, entry="column", entry_col=draw(st.sampled_from(hot or cols)))
+    return case
+
+
 FAMILIES = [
-    Family("pandas", evaluate, strategy=lambda: gen.parser_case(), n_quick=1000, n_thorough=4000, shards_quick=4,
+    Family("pandas", evaluate, strategy=strat_pandas, n_quick=1000, n_thorough=4000, shards_quick=4,
            shards_thorough=16,
            required_labels=["op=coerce", "op=default", "op=add_missing", "op=filter", "op=drop", "kind=series",
                             "result-differs-from-input", "outcome=ok"]),
